@@ -344,12 +344,14 @@ class ModifiedPrior(AbstractPriorModel, ABC, ArithmeticMixin, Compound):
         self.prior = prior
 
     def dict(self):
+        from autofit import ModelObject
+
         return {
             "type": "modified",
             "modified_type": self.__class__.__name__,
             "name": self._prior_name,
             "prior": self.prior.dict()
-            if isinstance(self.prior, AbstractPriorModel)
+            if isinstance(self.prior, ModelObject)
             else self.prior,
         }
 
